@@ -157,6 +157,28 @@ def subst(path, recv_path, arg_paths):
     return None  # callee local
 
 
+def _induction_names(fn):
+    """for-loop induction variables are rendered by nesting depth ($i1, $i2, …): their names are not part of any schema"""
+    out = {}
+
+    def rec(n, depth):
+        if not is_node(n):
+            return
+        d = depth
+        if n["k"] == "For" and is_node(n.get("init")) and n["init"]["k"] == "Decl":
+            d = depth + 1
+            for v in n["init"].get("vars", []):
+                out[v["id"]] = "$i%d" % d
+        from facts import children
+        for c in children(n):
+            rec(c, d)
+        if n["k"] == "For" and is_node(n.get("init")):
+            pass
+
+    rec(fn.get("body"), 0)
+    return out
+
+
 def _local_guard(f, env):
     """does guard fact f depend on a local that is not an alias of a member path?"""
     for d in f[3]:
@@ -311,6 +333,7 @@ class Summarizer:
             import facts as _facts
             saved = _facts.SHOW_ALIAS
             _facts.SHOW_ALIAS = {vid: render(p) for vid, p in env.alias.items() if p and p[0][0] == "this"}
+            _facts.SHOW_ALIAS.update(_induction_names(fn))
             try:
                 col.run()
             finally:
